@@ -260,3 +260,42 @@ Fixpoint snap_violations_from (l : list snapcase) (k : nat) : list (nat * nat) :
                 end
               end
   end.
+
+(* ---------- C13: crash points ---------- *)
+(* the child acknowledged [cr_acked]; [cr_inflight] was issued but not acknowledged when the process was
+   killed; [cr_dump] is what the reopened database contains; [cr_post] is the continued workload (starting
+   with RevertDispatched or CancelDispatched) *)
+Record crashcase := mkCrash { cr_acked : hist; cr_inflight : option op; cr_dump : list task; cr_post : hist }.
+Fixpoint hist_state (c : cfg) (s : repo) (h : hist) : option repo :=
+  match h with
+  | [] => Some s
+  | x :: r => match check_step c s x with Some s' => hist_state c s' r | None => None end
+  end.
+Definition same_contents (dump : list task) (s : repo) : bool :=
+  Nat.eqb (List.length dump) (List.length s)
+  && forallb (fun t => otask_eqb (lookup (t_id t) s) (Some t)) dump.
+(* 0 = fine; 1 = the acknowledged prefix itself is not accepted; 2 = the database is neither "all
+   acknowledged operations" nor "those plus the one in flight"; 3 + i = step i of the continued workload *)
+Definition crash_check (c : cfg) (x : crashcase) : option nat :=
+  match hist_state c [] (cr_acked x) with
+  | None => Some 1%nat
+  | Some s1 =>
+    let cands := s1 :: match cr_inflight x with Some o => [fst (step c s1 o)] | None => [] end in
+    match List.find (same_contents (cr_dump x)) cands with
+    | None => Some 2%nat
+    | Some s0 =>
+      (* the store lists by created_at; rebuild the specification's insertion order from the dump *)
+      match check_hist c (cr_dump x) (cr_post x) 0 with
+      | Some i => Some (3 + i)%nat
+      | None => None
+      end
+    end
+  end.
+Fixpoint crash_violations (c : cfg) (l : list crashcase) (k : nat) : list (nat * nat) :=
+  match l with
+  | [] => []
+  | x :: r => match crash_check c x with
+              | Some i => (k, i) :: crash_violations c r (S k)
+              | None => crash_violations c r (S k)
+              end
+  end.
